@@ -35,7 +35,14 @@ type Ctx struct {
 	lres       map[*ssa.Function]*lockResult
 	lentry     map[*ssa.Function]map[lockKey]string
 	silent     bool // engines evaluate without recording (wrapper summaries)
-	wrapCache  map[string][]wrapper
+	// refusalOK: for the must-follow obligation being evaluated, a way out of
+	// the function that hands back a non-nil error (and nothing else of
+	// value) needs no further step: the rule is about what happens when the
+	// function goes on, and refusing to go on is always allowed there (set by
+	// the rule around the call; never for rules about what an error path
+	// itself must do)
+	refusalOK bool
+	wrapCache map[string][]wrapper
 }
 
 // Prop is one property's rule table.
